@@ -564,6 +564,37 @@ pub fn wide_family(pats: &[usize]) -> Vec<Vec<Clause>> {
     out
 }
 
+/// "same literals, different grouping" family over 5 variables: (x | A1) (x | A2) (!x | B1)
+/// (!x | B2), where {A1, A2} and {B1, B2} are two different pairings of the literals of the other
+/// four variables: the two residual formulas under x = false / x = true consist of the same
+/// literal occurrences grouped differently
+pub fn regroup_family(xs: &[usize], pats: &[usize]) -> Vec<Vec<Clause>> {
+    let pairings: [[(usize, usize); 2]; 3] = [[(0, 1), (2, 3)], [(0, 2), (1, 3)], [(0, 3), (1, 2)]];
+    let mut out = Vec::new();
+    for &x in xs {
+        let others: Vec<usize> = (0..5).filter(|v| *v != x).collect();
+        for &pat in pats {
+            let lit = |i: usize| -> Lit { (others[i], (pat >> i) & 1 == 1) };
+            for pa in 0..3 {
+                for pb in 0..3 {
+                    if pa == pb {
+                        continue;
+                    }
+                    let mut cnf: Vec<Clause> = Vec::new();
+                    for &(i, j) in pairings[pa].iter() {
+                        cnf.push(vec![(x, true), lit(i), lit(j)]);
+                    }
+                    for &(i, j) in pairings[pb].iter() {
+                        cnf.push(vec![(x, false), lit(i), lit(j)]);
+                    }
+                    out.push(cnf);
+                }
+            }
+        }
+    }
+    out
+}
+
 fn families(ctx: &Ctx) -> Vec<(usize, usize, usize, &'static str)> {
     // (n, max clauses, max clause width, name)
     match ctx.tier {
@@ -642,6 +673,19 @@ pub fn run(ctx: &Ctx) -> Report {
         rep.add_extra("n5_wide4_plus_2_binary_cnfs", fam.traces);
         rep.add_extra("n5_wide4_plus_2_binary_states", fam.states);
         rep.bound("n5_wide4_plus_2_binary", json!({"variables": 5, "clauses": 3, "wide_clause_polarity_patterns": pats.len(), "binary_clause_pairs": 136, "max_open_decisions": open}));
+        rep.merge(fam);
+    }
+    // regrouped literals (4 clauses of width 3, 5 variables), bounded to 2 (3) open decisions
+    {
+        let (xs, pats): (Vec<usize>, Vec<usize>) = if ctx.tier == Tier::Quick { (vec![0, 4], vec![0b1111, 0b0110]) } else { ((0..5).collect(), (0..16).collect()) };
+        let mut cnfs = regroup_family(&xs, &pats);
+        ctx.rotate(&mut cnfs);
+        let open = ctx.tier.pick(2, 3);
+        let chunks: Vec<&[Vec<Clause>]> = cnfs.chunks(4).collect();
+        let fam = par_run(ctx, &chunks, |_, chunk| explore_chunk(chunk, Some(open)));
+        rep.add_extra("n5_regrouped_literals_cnfs", fam.traces);
+        rep.add_extra("n5_regrouped_literals_states", fam.states);
+        rep.bound("n5_regrouped_literals", json!({"variables": 5, "clauses": 4, "cnfs": cnfs.len(), "max_open_decisions": open}));
         rep.merge(fam);
     }
     rep.evaluations = rep.transitions;
